@@ -649,6 +649,20 @@ pub fn scenarios(prop: &str, tier: &str) -> Vec<Arc<dyn Scenario>> {
                     v.push(std(&format!("C17-weak-{:?}-{:?}", m[0], m[1]), c, aw.clone(), bd, vec![vec![]], OracleKind::C17));
                 }
             }
+            {
+                // the filter at work inside merges chosen by score between over-full levels (three keys,
+                // one table per write, leveled parameter set 2): Remove / Replace on a and b, c kept
+                use crate::cfilter::VerdictSpec::*;
+                for m in [vec![Remove, ReplaceSmall, Keep], vec![ReplaceSmall, Remove, Keep]] {
+                    let mut c = TreeCfg::small(keys_abc());
+                    c.filter_verdicts = Some(m.clone());
+                    let mut ac = cascade_alphabet();
+                    ac.snap = true;
+                    ac.no_unsnap = true;
+                    let bd = if quick { bs(3, 1, 1, 0, 0) } else { bs(4, 2, 1, 0, 0) };
+                    v.push(std(&format!("C17-cascade-{:?}-{:?}", m[0], m[1]), c, ac, bd, vec![vec![]], OracleKind::C17));
+                }
+            }
             let maps: Vec<_> = if quick { maps.into_iter().step_by(5).collect() } else { maps };
             for (i, m) in maps.iter().enumerate() {
                 let mut c = TreeCfg::small(keys_ab());
@@ -862,6 +876,18 @@ pub fn scenarios(prop: &str, tier: &str) -> Vec<Arc<dyn Scenario>> {
                 ));
             }
             {
+                // weak tombstones and their values meeting in merges chosen by score between over-full
+                // levels (leveled parameter set 2), with tombstone eviction at the last level
+                let mut ac = Alphabet::default();
+                ac.wdel_discipline = true;
+                ac.flush = true;
+                ac.leveled = vec![2];
+                ac.wms = vec![Wm::Tight, Wm::Zero];
+                ac.snap = !quick;
+                let bd = if quick { bs(4, 4, 0, 0, 0) } else { bs(5, 5, 1, 1, 0) };
+                v.push(std("C13-cascade", TreeCfg::small(keys_ab()), ac, bd, vec![vec![]], OracleKind::C13));
+            }
+            {
                 // one key whose first value already lies in the last level: later weak tombstones and
                 // values meet (or do not meet) in flushes and partial merges above it
                 let mut ad = Alphabet::default();
@@ -928,6 +954,18 @@ pub fn scenarios(prop: &str, tier: &str) -> Vec<Arc<dyn Scenario>> {
                     ab.ingests = vec![vec![(0, IKind::Val)], vec![(0, IKind::BigVal), (1, IKind::Tomb)]];
                     v.push(std("C14-blob-quick", TreeCfg::small(keys_ab()).with_blob(16), ab, bs(2, 2, 1, 1, 0), vec![vec![]], OracleKind::C14));
                 }
+            }
+            {
+                // ingested tables (global seqno) travelling through a cascade of over-full levels
+                let mut ac = cascade_alphabet();
+                ac.ingests = vec![
+                    vec![(0, IKind::Val), (1, IKind::Val), (2, IKind::Val)],
+                    vec![(0, IKind::Tomb), (2, IKind::Val)],
+                    vec![(1, IKind::Val)],
+                ];
+                ac.snap = true;
+                let bd = if quick { bs(2, 1, 1, 0, 0) } else { bs(4, 2, 1, 1, 0) };
+                v.push(std("C14-cascade-k3", TreeCfg::small(keys_abc()), ac, bd, vec![vec![]], OracleKind::C14));
             }
             if quick {
                 v.push(std(
